@@ -746,6 +746,80 @@ theorem delta_method_label_perm_invariant (syms : List String) (g : String → R
   have : c'.entry = c.entry := by funext a b; exact hentry a b
   rw [this]
 
+/-! ## label-order invariance of Cook scores and shrinkage (after f1a9548, 05239f5, 1c13772) -/
+
+/-- **cook_scores_label_perm_invariant.**  The Cook scores depend on the labelled
+    base estimate and covariance matrix only through their labels: re-ordering the
+    base estimate (labels distinct) and replacing the covariance matrix by any
+    re-ordering of the same labelled matrix changes nothing. -/
+theorem cook_scores_label_perm_invariant (colLabels : List String) (cols : List (List Rat))
+    (base base' : List (String × Rat)) (c c' : Stats.LCov)
+    (hb : base.Perm base') (hn : (base.map (·.1)).Nodup) (hentry : ∀ a b, c'.entry a b = c.entry a b) :
+    Stats.cook2Labelled colLabels cols base' c' = Stats.cook2Labelled colLabels cols base c := by
+  unfold Stats.cook2Labelled
+  have h1 : (fun l => (Stats.lookupS base' l).getD 0) = (fun l => (Stats.lookupS base l).getD 0) := by
+    funext l; rw [lookupS_perm hb hn l]
+  have h2 : c'.entry = c.entry := by funext a b; exact hentry a b
+  rw [h1, h2]
+
+/-- The Cook scores are those of the positional definition applied to the
+    base estimate and covariance re-indexed by the columns of the estimates. -/
+theorem cook_scores_def (colLabels : List String) (cols : List (List Rat)) (base : List (String × Rat)) (c : Stats.LCov) :
+    Stats.cook2Labelled colLabels cols base c =
+      Stats.cook2 (colLabels.map (fun l => (Stats.lookupS base l).getD 0)) cols
+        (colLabels.map (fun a => colLabels.map (fun b => c.entry a b))) := rfl
+
+/-- **eta_shrinkage_by_label.**  Every column of `individual_estimates` gets
+    `1 − var(column) / omega` with the omega of the eta *named like the column*,
+    whatever the order of the columns; permuting the columns permutes the result. -/
+theorem eta_shrinkage_by_label (etaNames : List String) (omegas : List Rat) (ie ie' : List (String × List Rat)) :
+    (∀ nm col, (nm, col) ∈ ie →
+      (nm, 1 - Stats.var col / ((Stats.lookupS (etaNames.zip omegas) nm).getD 0)) ∈ Stats.etaShrinkageL etaNames omegas ie) ∧
+    (ie.Perm ie' → (Stats.etaShrinkageL etaNames omegas ie).Perm (Stats.etaShrinkageL etaNames omegas ie')) ∧
+    (ie.Perm ie' → (ie.map (·.1)).Nodup → ∀ nm,
+      Stats.lookupS (Stats.etaShrinkageL etaNames omegas ie) nm = Stats.lookupS (Stats.etaShrinkageL etaNames omegas ie') nm) := by
+  refine ⟨?_, ?_, ?_⟩
+  · intro nm col h
+    unfold Stats.etaShrinkageL
+    exact List.mem_map.mpr ⟨(nm, col), h, rfl⟩
+  · intro h; exact h.map _
+  · intro h hn nm
+    apply lookupS_perm (h.map _)
+    rw [List.map_map]
+    exact hn
+
+/-- **individual_shrinkage_by_label.**  For one individual, each diagonal entry of
+    its (labelled) matrix is divided by the omega of the eta with that label,
+    whatever the order of the labels. -/
+theorem individual_shrinkage_by_label (etaNames : List String) (omegas : List Rat) (diag diag' : List (String × Rat)) :
+    (∀ nm d, (nm, d) ∈ diag →
+      (nm, d / ((Stats.lookupS (etaNames.zip omegas) nm).getD 0)) ∈ Stats.indShrinkageL etaNames omegas diag) ∧
+    (diag.Perm diag' → (diag.map (·.1)).Nodup → ∀ nm,
+      Stats.lookupS (Stats.indShrinkageL etaNames omegas diag) nm = Stats.lookupS (Stats.indShrinkageL etaNames omegas diag') nm) := by
+  refine ⟨?_, ?_⟩
+  · intro nm d h
+    unfold Stats.indShrinkageL
+    exact List.mem_map.mpr ⟨(nm, d), h, rfl⟩
+  · intro h hn nm
+    apply lookupS_perm (h.map _)
+    rw [List.map_map]
+    exact hn
+
+/-- The pre-repair positional pairing (before 05239f5) was *not* label based:
+    with the columns swapped the labelled and the positional results differ. -/
+theorem eta_shrinkage_positional_witness :
+    Stats.etaShrinkagePositional [1, 2] [("ETA_VC", [0, 2]), ("ETA_CL", [0, 4])]
+      ≠ Stats.etaShrinkageL ["ETA_CL", "ETA_VC"] [1, 2] [("ETA_VC", [0, 2]), ("ETA_CL", [0, 4])] := by
+  decide +kernel
+
+/-- Likewise for the Cook scores (before f1a9548): a base estimate labelled in
+    another order than the estimate columns gave other scores. -/
+theorem cook_scores_positional_witness :
+    Stats.cook2Positional ["b", "a"] [[1, 2, 4], [0, 1, 5]] [("a", 1), ("b", 3)] [[2, 0], [0, 1]]
+      ≠ Stats.cook2Labelled ["b", "a"] [[1, 2, 4], [0, 1, 5]] [("a", 1), ("b", 3)]
+          { cols := ["b", "a"], rows := [("b", [("b", 2), ("a", 0)]), ("a", [("b", 0), ("a", 1)])] } := by
+  decide +kernel
+
 /-! ## non-vacuity -/
 
 /-- The candidate set of tests/tools/test_run.py (base, m1 failing strictness, m2 = m3 tied, m4 worse):
